@@ -9,7 +9,7 @@ PROPS = ["C10", "C09"]
 WORKERS = 8
 SHARDS = 8
 PANIC = {"vm-null", "vm-no-key"}                                             # PanicDefects of the cfgs
-LAX = {"capinv-embedded-foreign-id", "capinv-embedded-not-thumbprint"}       # LaxDefects of the descriptive cfgs
+LAX = set()       # LaxDefects of the descriptive cfgs (F20-C09 repaired: embedded methods are validated like the listed ones)
 ASSUMPTIONS = ["SHA-256 / RFC 7638 thumbprints are collision free", "bbolt commits atomically; one store.Add at a time (the callers serialise)",
                "jwx verifies ES256 correctly", "small scope: <= 5 transactions per event set, <= 3 DIDs (7 in the controller chain), 5 keys",
                "the lamport clock of a received transaction respects its prevs (checked by the DAG before the ambassador sees it); signing times are arbitrary",
